@@ -194,6 +194,9 @@ impl<TStdlib: Stdlib, TStdIn: Input, TStdOut: Printer, TLpt1: Printer> Interpret
         #[cfg(feature = "verif")]
         self.verif_begin(instructions.len(), &statement_addresses);
         let mut i: usize = 0;
+        // the depths of the stacks when the current statement of each active
+        // function/sub (indexed by call depth) started
+        let mut statement_entries: Vec<StatementEntry> = vec![];
         let mut ctx: InterpretOneContext = InterpretOneContext {
             halt: false,
             error_handler: ErrorHandler::None,
@@ -207,6 +210,14 @@ impl<TStdlib: Stdlib, TStdIn: Input, TStdOut: Printer, TLpt1: Printer> Interpret
             }
             let instruction = &instructions[i].element;
             let pos = instructions[i].pos();
+            if ctx.nearest_statement_finder.is_statement_start(i) {
+                let call_depth = self.return_address_stack.len();
+                statement_entries.truncate(call_depth + 1);
+                while statement_entries.len() <= call_depth {
+                    statement_entries.push(StatementEntry::default());
+                }
+                statement_entries[call_depth] = self.statement_entry();
+            }
             match self.interpret_one(i, instruction, pos, &mut ctx) {
                 Ok(_) => match ctx.opt_next_index.take() {
                     Some(next_index) => {
@@ -218,6 +229,13 @@ impl<TStdlib: Stdlib, TStdIn: Input, TStdOut: Printer, TLpt1: Printer> Interpret
                 },
                 Err(e) => {
                     self.last_error_code = Some(e.err().get_code());
+                    if ctx.error_handler != ErrorHandler::None {
+                        // the error is handled: abandon what the failing statement had started
+                        let call_depth = self.return_address_stack.len();
+                        if let Some(entry) = statement_entries.get(call_depth) {
+                            self.unwind_to_statement_entry(entry, &e);
+                        }
+                    }
                     match ctx.error_handler {
                         ErrorHandler::Address(handler_address) => {
                             // store error address, so we can call RESUME and RESUME NEXT from within the error handler
@@ -635,6 +653,39 @@ impl<TStdlib: Stdlib, TStdIn: Input, TStdOut: Printer, TLpt1: Printer>
         Ok(())
     }
 
+    /// Records the depths of the stacks at the start of a statement.
+    fn statement_entry(&self) -> StatementEntry {
+        StatementEntry {
+            value_stack: self.value_stack.len(),
+            var_path_stack: self.var_path_stack.len(),
+            by_ref_stack: self.by_ref_stack.len(),
+            context_states: self.context.states_len(),
+            stacktrace: self.stacktrace.len(),
+        }
+    }
+
+    /// Restores the stacks to what they were when the failing statement started:
+    /// operands left on the value stack, variable paths, argument collecting states,
+    /// the state of a failing built-in and its entry in the stacktrace
+    /// (a failing built-in drains the stacktrace into the error).
+    fn unwind_to_statement_entry(&mut self, entry: &StatementEntry, e: &RuntimeErrorPos) {
+        self.value_stack.truncate(entry.value_stack);
+        self.var_path_stack.truncate(entry.var_path_stack);
+        self.by_ref_stack.truncate(entry.by_ref_stack);
+        self.function_result = None;
+        self.context.truncate_states(entry.context_states);
+        if self.stacktrace.len() > entry.stacktrace {
+            let extra = self.stacktrace.len() - entry.stacktrace;
+            self.stacktrace.drain(0..extra);
+        } else if self.stacktrace.len() < entry.stacktrace {
+            // the call sites are the last positions of the error
+            let positions = e.positions();
+            if positions.len() >= entry.stacktrace {
+                self.stacktrace = positions[positions.len() - entry.stacktrace..].to_vec();
+            }
+        }
+    }
+
     /// Gets the instruction address where the most recent error occurred.
     /// Clears that address and also clears the most recent error code.
     fn take_last_error_address(&mut self) -> Result<usize, RuntimeError> {
@@ -644,6 +695,16 @@ impl<TStdlib: Stdlib, TStdIn: Input, TStdOut: Printer, TLpt1: Printer>
             None => Err(RuntimeError::ResumeWithoutError),
         }
     }
+}
+
+/// The depths of the interpreter's stacks at the start of a statement.
+#[derive(Clone, Copy, Default)]
+struct StatementEntry {
+    value_stack: usize,
+    var_path_stack: usize,
+    by_ref_stack: usize,
+    context_states: usize,
+    stacktrace: usize,
 }
 
 /// Context available to the execution of a single instruction.
@@ -679,6 +740,10 @@ impl NearestStatementFinder {
         Self {
             statement_addresses,
         }
+    }
+
+    pub fn is_statement_start(&self, address: usize) -> bool {
+        self.statement_addresses.binary_search(&address).is_ok()
     }
 
     pub fn find_current(&self, address: usize) -> usize {
